@@ -302,6 +302,16 @@ def run(ctx):
             if not held:
                 run.finding(Finding(R3, ort.id, "a log look-up of the owner API is not restricted to the active account on every path (a slate id is not unique inside a wallet: a look-up by slate id would also return the other account's side of a self-send)", site=c.site_of(ort, b)))
 
+    gst = ctx.fn(c.LW + "api_impl::owner::get_stored_tx")
+    if gst is None:
+        run.error("C19.R3: api_impl::owner::get_stored_tx not found")
+    else:
+        cm = account_comparisons(ctx, gst)
+        held = bool(cm) and all(closure_true_requires(g, x, db) or g.dk != "Closure" for g, x in cm)
+        run.instance(R3, {"fn": "owner::get_stored_tx", "obligation": "the log entry whose stored transaction is fetched by log id is looked up inside the active account (log ids repeat across accounts)", "account_comparisons": len(cm)}, held=held)
+        if not held:
+            run.finding(Finding(R3, gst.id, "a stored transaction is fetched by log id without restricting the look-up to the active account: with the same id in two accounts another account's transaction is returned (and re-posted by `repost`)", site=gst.loc()))
+
     R5 = "C19.R5"
     run.rule(R5, "a confirmation-time criterion is not satisfied by an entry that has no confirmation time", floor=2)
     advf = ctx.fn(ADV)
